@@ -81,7 +81,9 @@ def compare_features(chk, viol, cfg, rng, orig, back, mk_info):
                 if cfg.fmt == "arxml" and lost and lost <= sig_recv and set(fb.transmitters) <= set(fo.transmitters):
                     key = "arxml-sender-also-receiver"
                 fv(key, "frame senders changed", info(), list(fo.transmitters), list(fb.transmitters))
-            if "first_sender" in car and list(fb.transmitters) != list(fo.transmitters)[:1]:
+            if "first_sender" in car and list(fb.transmitters)[:1] != list(fo.transmitters)[:1]:
+                # only the FIRST sender is constrained for this format: it comes back, and comes back first (a frame without sender comes
+                # back without one); whether further senders are dropped or kept is left open
                 fv(cfg.kbase + "-first-sender", "first sender not preserved", info(), list(fo.transmitters)[:1], list(fb.transmitters))
             if len(fo.transmitters) > 1:
                 chk.count("multi-sender-frames")
@@ -501,20 +503,23 @@ def tie(chk, tie_cases):
                             tok = ml["token"]
                             hexa = tok.endswith("h")
                             ds = [int(c, 16) for c in (tok[:-1] if hexa else tok)]
-                            add(705, [[int(msig.size), int(so.mux_val)]], [[int(hexa)], ds], dict(sinf, what="selector token in file"))
+                            add(705, [[int(msig.size), int(so.mux_val)]], ("W", [[int(hexa)], ds]), dict(sinf, what="selector token in file"))
+                            add(706, [[int(hexa)], ds], ("sem-sel", int(so.mux_val)), dict(sinf, what="selector token in file read by the model"))
                             add(706, [[int(hexa)], ds], [[int(sb.mux_val) if sb.mux_val is not None else -1]], dict(sinf, what="selector read"))
                     if xs is None or sb is None:
                         continue
                     # ---- type ----
                     if tfmt is not None and xs.get("type") is not None and "type" in cfg.carries:
-                        add(701, [[tfmt, int(so.size), int(bool(so.is_signed)), int(bool(so.is_float))]], [xs["type"]], dict(sinf, what="type fields in file"))
+                        add(701, [[tfmt, int(so.size), int(bool(so.is_signed)), int(bool(so.is_float))]], ("W", [xs["type"]]), dict(sinf, what="type fields in file"))
+                        add(702, [[tfmt], xs["type"]], ("sem-type", bool(so.is_signed), bool(so.is_float), tfmt), dict(sinf, what="type fields in file read by the model"))
                         add(702, [[tfmt], xs["type"]], [[1, int(bool(sb.is_signed)), int(bool(sb.is_float))]], dict(sinf, what="type read"))
                     # ---- multiplex token ----
                     if xs.get("mux") is not None and "mux" in cfg.carries:
                         kind = 1 if cfg.fmt == "dbc" else 2
                         tok = xs["mux"][:1] if xs["mux"][0] in (0, 1) else list(xs["mux"])
                         mv = -1 if so.mux_val is None else int(so.mux_val)
-                        add(703, [[kind, int(bool(so.is_multiplexer)), mv]], [tok], dict(sinf, what="multiplex token in file"))
+                        add(703, [[kind, int(bool(so.is_multiplexer)), mv]], ("W", [tok]), dict(sinf, what="multiplex token in file"))
+                        add(704, [[kind], tok], ("sem-mux", bool(so.is_multiplexer), mv, kind), dict(sinf, what="multiplex token in file read by the model"))
                         add(704, [[kind], tok], [[1, int(bool(sb.is_multiplexer)), -1 if sb.mux_val is None else int(sb.mux_val)]], dict(sinf, what="multiplex read"))
                     # ---- factor / offset texts ----
                     if "scaling" in cfg.carries:
@@ -527,16 +532,47 @@ def tie(chk, tie_cases):
                                 chk.tie_break("number-text", dict(sinf, which=which), "not a number text: %r" % text, None)
                                 continue
                             d = dec_tuple(getattr(so, which))
-                            add(708 if cfg.fmt in ("dbc", "sym") else 707, [d], st, dict(sinf, what=which + " text in file", text=str(text)))
-                            add(709, st, [[1] + dec_tuple(getattr(sb, which))], dict(sinf, what=which + " read", text=str(text)))
+                            add(708 if cfg.fmt in ("dbc", "sym") else 707, [d], ("W", st), dict(sinf, what=which + " text in file", text=str(text)))
+                            add(709, st, ("sem-dec", d), dict(sinf, what=which + " text in file read by the model", text=str(text)))
+                            add(709, st, ("sem-dec", dec_tuple(getattr(sb, which))), dict(sinf, what=which + " read", text=str(text)))
     out = core.run_model(lines)
     bad = 0
+
+    def value_of(neg, coef, exp):
+        return (-1 if neg else 1) * D(int(coef)).scaleb(int(exp))
     for inf, exp, o in zip(info, expect, out):
-        if core.parse_out(o) != exp:
+        got = core.parse_out(o)
+        if isinstance(exp, tuple):
+            tag = exp[0]
+            if tag == "W":
+                # how a writer spells a field (bare digit or hex selector, 1E+3 or 1000, a default stated or left out) is not
+                # constrained by the property: a spelling other than the model writer's is recorded, not judged; what the
+                # spelling MEANS is judged by the sem-* cases (model reader on the file's fields) and the reader tie
+                chk.count("writer-spelling:%s" % ("as-model" if got == exp[1] else "other-than-model:" + inf["what"]))
+                continue
+            if tag == "sem-sel":
+                ok_ = got == [[exp[1]]]
+            elif tag == "sem-type":
+                _, s0, f0, tf = exp
+                ok_ = len(got) == 1 and len(got[0]) == 3 and got[0][0] == 1 and bool(got[0][2]) == f0 and \
+                    (f0 or tf == 9 or bool(got[0][1]) == s0)       # a float's sign flag carries no meaning; AUTOSAR 3 carries no sign (known finding)
+            elif tag == "sem-mux":
+                _, im, mv, kind = exp
+                want = [1, int(im), mv if (kind == 1 or not im) else -1]
+                ok_ = got == [want]
+            else:   # sem-dec: the same number, whatever (digits, exponent) representation
+                ok_ = len(got) == 1 and len(got[0]) == 4 and got[0][0] == 1 and value_of(*got[0][1:]) == value_of(*exp[1]) \
+                    and (bool(got[0][1]) == bool(exp[1][0]) or int(exp[1][1]) == 0)
+            if not ok_:
+                bad += 1
+                chk.tie_break("fmtnum", inf, got, list(exp))
+            continue
+        if got != exp:
             bad += 1
-            chk.tie_break("fmtnum", inf, core.parse_out(o), exp)
+            chk.tie_break("fmtnum", inf, got, exp)
     chk.ties["correspondence"] = {"suite": "fmtnum W+R (cmd 701-709)", "cases": len(lines), "disagreements": bad, "files": len(tie_cases)}
-    idx = chk.rng.sample(range(len(lines)), min(300, len(lines)))
+    eligible = [i for i in range(len(lines)) if not isinstance(expect[i], tuple)]
+    idx = chk.rng.sample(eligible, min(300, len(eligible)))
     shard = []
     for i in idx:
         c, groups = lines[i].split(" ", 1)
